@@ -329,6 +329,13 @@ class Parser:
                 self.expect(")")
                 ty = self.unify(e, b)
                 e = Expr("(Nat.min (%s) (%s))" % (e.lean, b.lean), ty)
+            elif meth == "saturating_sub":
+                self.i += 2
+                self.expect("(")
+                b = self.parse()
+                self.expect(")")
+                ty = self.unify(e, b)
+                e = Expr("((%s) - (%s))" % (e.lean, b.lean), ty)   # Nat subtraction saturates at 0 as well
             elif meth == "len":
                 self.i += 2
                 self.expect("(")
@@ -472,7 +479,13 @@ class Gen:
 
         def go():
             src = strip_comments(read(path))
-            _, _, body = find_fn_body(src, fn, occurrence)
+            if fn.endswith("!"):
+                mm = re.search(r"macro_rules!\s+%s\s*\{" % re.escape(fn[:-1]), src)
+                if not mm:
+                    raise ParseError("macro %s not found" % fn)
+                body = src[mm.end():matching_brace(src, mm.end() - 1) - 1]
+            else:
+                _, _, body = find_fn_body(src, fn, occurrence)
             ms = list(re.finditer(pattern, body, flags=re.S))
             if len(ms) != count:
                 raise ParseError("%s: pattern /%s/ matches %d times in fn %s (expected %d)" % (lean_name, pattern, len(ms), fn, count))
@@ -677,6 +690,52 @@ def gen_all():
     g.attempt("templates/async_client_impl.rs:strategy", lambda: strategy("templates/async_client_impl.rs", "async"))
     g.const("src/clients/std/client_impl.rs", "QUERY_BUFFER_SIZE", "STD_QUERY_BUFFER_SIZE")
     g.const("templates/async_client_impl.rs", "QUERY_BUFFER_SIZE", "ASYNC_QUERY_BUFFER_SIZE")
+    e("")
+
+    # ---- bounds tests of the cursor, pointer tests of the label walk, length gates of the name types ----
+    N, B = "Nat", "Bool"
+    CU = "src/bytes/cursor.rs"
+    CURP = ["C01", "C04", "C10", "C17"]
+    cur_env = {"self.pos": ("pos", "usize"), "self.buf": ("buf", "usize"), "self": ("cur", "usize"),
+               "size": ("size", "usize"), "distance": ("distance", "usize"), "capacity": ("capacity", "usize")}
+    g.guard(CURP, CU, "slice", r"\bif\s+([^{]*?)\s*\{", "cur_slice_fits",
+            [("pos", N), ("buf_len", N), ("cur_len", N), ("size", N)], cur_env)
+    g.guard(CURP, CU, "window", r"\bif\s+((?!self\.orig\.is_)[^{]*?)\s*\{", "cur_window_fits",
+            [("pos", N), ("buf_len", N), ("cur_len", N), ("size", N)], cur_env)
+    g.guard(CURP, CU, "close_window", r"\bif\s+((?!self\.orig\.is_)[^{]*?)\s*\{", "cur_close_ok",
+            [("pos", N), ("buf_len", N)], cur_env)
+    g.guard(CURP, CU, "skip", r"\bif\s+([^{]*?)\s*\{", "cur_skip_fits",
+            [("cur_len", N), ("distance", N)], cur_env)
+    g.guard(CURP, CU, "len", r"let\s+capacity\s*=\s*self\.capacity\(\)\s*;\s*(.*)$", "cur_len",
+            [("capacity", N), ("pos", N)], cur_env, ret="Nat")
+    g.guard(CURP, CU, "is_empty", r"^(.*)$", "cur_is_empty", [("cur_len", N)], cur_env)
+    g.guard(CURP, CU, "u8", r"\bif\s+([^{]*?)\s*\{", "cur_u8_ok", [("is_empty", B)],
+            {"EMPTY": ("is_empty", "bool")}, subst=[(r"self\.is_empty\(\)", "EMPTY")])
+    g.guard(CURP, "src/bytes/macros.rs", "r_be!", r"\bif\s+([^{]*?)\s*\{\s*let\s+buf\s*=\s*unsafe", "cur_rbe_fits",
+            [("cur_len", N), ("size_of_t", N)], {"SELF": ("cur", "usize"), "SIZEOF": ("size_of_t", "usize")},
+            subst=[(r"\$self", "SELF"), (r"std::mem::size_of::<\$t>\(\)", "SIZEOF")])
+    LM = "src/message/reader/labels/macros.rs"
+    LABP = ["C01", "C03"]
+    g.guard(LABP, LM, "labels_loop!", r"\bif\s+(offset[^{]*?)\s*\{\s*return\s+Err\(\s*Error::DomainNameBadPointer", "ptr_not_backward",
+            [("offset", N), ("max_pos", N)], {"offset": ("offset", "u16"), "MAXPOS": ("max_pos", "usize")},
+            subst=[(r"\$max_pos", "MAXPOS")])
+    g.guard(LABP, LM, "labels_loop!", r"\bif\s+(\$n_pointers[^{]*?)\s*\{\s*return\s+Err\(\s*Error::DomainNameTooMuchPointers", "ptr_too_many",
+            [("n_pointers", N)], {"NPTR": ("n_pointers", "usize")}, subst=[(r"\$n_pointers", "NPTR")])
+    g.guard(LABP, LM, "labels_loop!", r"\bif\s+(label\s*==[^{]*?)\s*\{\s*if\s+\$max_pos\s*==\s*0", "label_is_end",
+            [("label", N)], {"label": ("label", "u8")})
+    NAMP = ["C05", "C08"]
+    for path, pfx, field in [("src/names/name.rs", "name", "self.name"), ("src/names/inline_name.rs", "inline", "self.arr")]:
+        env = {field: ("name", "usize"), "label_as_str": ("label", "usize"), "new_len": ("new_len", "usize")}
+        g.guard(NAMP, path, "append_label_bytes", r"let\s+new_len\s*=\s*([^;]*?)\s*;", pfx + "_decoded_new_len",
+                [("name_len", N), ("label_len", N)], env, ret="Nat")
+        g.guard(NAMP, path, "append_label_bytes", r"\bif\s+(new_len[^{]*?)\s*\{\s*return\s+Err\(\s*Error::DomainNameTooLong\(\s*([^)]*?)\s*\)", pfx + "_decoded_too_long",
+                [("new_len", N)], env)
+    g.guard(NAMP, "src/names/utils.rs", "check_name_bytes", r"let\s+full_length\s*=\s*if\s+last_byte\s*==\s*b'\.'\s*\{\s*([^}]*?)\s*\}\s*else", "text_full_len_dotted",
+            [("len", N)], {"len": ("len", "usize")}, ret="Nat")
+    g.guard(NAMP, "src/names/utils.rs", "check_name_bytes", r"let\s+full_length\s*=\s*if\s+last_byte\s*==\s*b'\.'\s*\{[^}]*\}\s*else\s*\{\s*([^}]*?)\s*\}\s*;", "text_full_len_undotted",
+            [("len", N)], {"len": ("len", "usize")}, ret="Nat")
+    g.guard(NAMP, "src/names/utils.rs", "check_name_bytes", r"\bif\s+(full_length[^{]*?)\s*\{\s*return\s+Err\(\s*Error::DomainNameTooLong", "text_too_long",
+            [("full_length", N)], {"full_length": ("full_length", "usize")})
     e("")
 
     # ---- decision points of the query clients (both sources: hand-written std, async template) -------
